@@ -108,6 +108,8 @@ def plan_c16(seed: int) -> dict:
         "schedule": None,
     }
     _add_poison(plan, rng)
+    if files["out.tsv"]["initial"] == "absent" and rng.random() < 0.25:
+        plan["phases"][0]["sessions"][0]["continue_file"] = False
     return plan
 
 
